@@ -41,6 +41,8 @@ func cmdRun(args []string) {
 	ua := fs.Bool("unwind-assume", false, "prune instead of fail at unwind limit")
 	merge := fs.String("merge", "", "comma separated functions to summarise")
 	lazy := fs.Bool("lazy", false, "lazy feasibility")
+	alt := fs.String("alt", "", "second-opinion solver")
+	tmo := fs.Int("tmo", 2000, "primary solver time limit per query in ms when -alt is given")
 	forks := fs.Bool("forks", false, "print the sites with most forks")
 	autouf := fs.Bool("autouf", false, "sweep mode: unknown callees become uninterpreted functions, scope predicates stubbed")
 	deadline := fs.Duration("deadline", 0, "stop exploring after this long")
@@ -76,7 +78,11 @@ func cmdRun(args []string) {
 			cfg.Merge[m] = true
 		}
 	}
+	if *alt != "" {
+		cfg.TimeoutMs, cfg.AltSolver, cfg.AltTimeoutMs = *tmo, *alt, 8000
+	}
 	s := NewSolver(cfg.Solver, cfg.TimeoutMs, *smtlog)
+	s.AltName, s.AltTimeout = cfg.AltSolver, cfg.AltTimeoutMs
 	defer s.Close()
 	e := NewExec(ld.Prog, cfg)
 	e.s = s
